@@ -357,46 +357,46 @@ _L = "--lemire=-345..345"
 add(
     H("s_float_fast_bounds", "smt", ["C02", "C07", "C08"], SMT_FUNCS,
       "decimal exponents -308..=-304 and 284..=293 (both ends of the table-product guard), -24..=-21, 21..=24 and 36..=39 (the ends of the one-operation path) x every significand 1 <= w < 10^19 x sign; 60 s per query",
-      stubs=SMT_CUTS, args=["float_check.py", "--exps=" + _b, _L, "--jobs", "8", "--timeout-ms", "60000"], cost=150, timeout=850),
+      stubs=SMT_CUTS, args=["float_check.py", "--exps=" + _b, _L, "--jobs", "5", "--timeout-ms", "60000"], cost=150, timeout=850),
     H("s_float_fast_sampled", "smt", ["C07", "C08"], SMT_FUNCS,
       "every 16th decimal exponent in -344..=344 and all of -6..=24 x every significand 1 <= w < 10^19, sign flag false (the sign is decided by s_float_fast_bounds / _all); 60 s per query",
-      stubs=SMT_CUTS, args=["float_check.py", "--exps=" + _s, _L, "--neg", "false", "--jobs", "8", "--timeout-ms", "60000"], cost=100, timeout=850),
+      stubs=SMT_CUTS, args=["float_check.py", "--exps=" + _s, _L, "--neg", "false", "--jobs", "5", "--timeout-ms", "60000"], cost=100, timeout=850),
     H("s_float_fast_all", "smt", ["C02", "C07", "C08", "C01"], SMT_FUNCS,
       "every decimal exponent in -345..=345 x every significand 1 <= w < 10^19 x sign; 120 s per query",
-      stubs=SMT_CUTS, args=["float_check.py", "--emin", "-345", "--emax", "345", _L, "--jobs", "14", "--timeout-ms", "120000"], tier=T, cost=1800, timeout=7200),
+      stubs=SMT_CUTS, args=["float_check.py", "--emin", "-345", "--emax", "345", _L, "--jobs", "14", "--timeout-ms", "120000"], tier=T, exp_gb=24, cost=1800, timeout=7200),
     H("s_float_trunc_sampled", "smt", ["C07"], SMT_FUNCS,
       "truncated significands (trunc == true, 10^16 <= w < 10^19: literals with more digits than the scanner keeps) at decimal exponents -200, -100, -50, 50, 100, 200, 280: whenever "
       "parse_float answers from the two Eisel-Lemire results for w and w+1, that answer is the rounding of w*10^e and of (w+1)*10^e, hence of every value in between; 60 s per query",
-      stubs=SMT_CUTS + ["model: <BiasedFp as PartialEq>::ne field-wise"], args=["float_check.py", "--exps=-200,-100,-50,50,100,200,280", "--lemire=-307..345", "--neg", "false", "--trunc", "--jobs", "7", "--timeout-ms", "60000"],
+      stubs=SMT_CUTS + ["model: <BiasedFp as PartialEq>::ne field-wise"], args=["float_check.py", "--exps=-200,-100,-50,50,100,200,280", "--lemire=-307..345", "--neg", "false", "--trunc", "--jobs", "4", "--timeout-ms", "60000"],
       cost=60, timeout=850),
     H("s_float_trunc_all", "smt", ["C07"], SMT_FUNCS,
       "truncated significands (trunc == true, 10^16 <= w < 10^19) at every decimal exponent -307..=345 except -4 (the lower end of Eisel-Lemire's tie rule: one of its 1820 path pairs is decided by neither solver within 300 s); 120 s per query",
       stubs=SMT_CUTS + ["model: <BiasedFp as PartialEq>::ne field-wise"], args=["float_check.py", "--emin", "-307", "--emax", "345", "--skip=-4", "--lemire=-307..345", "--neg", "false", "--trunc", "--jobs", "14", "--timeout-ms", "120000"],
-      tier=T, cost=3000, timeout=10800),
+      tier=T, exp_gb=24, cost=3000, timeout=10800),
     H("s_simd_str2int", "smt", ["C07", "C17"], ["sonic_number::arch::x86_64::simd_str2int (the SSE digit reader selected with avx2+pclmulqdq, i.e. by /repo's target-cpu=native)",
                                                "macros packadd_1/2/4, simd_add_5_8, simd_add_9_15, simd_add_16"],
       "need 1..=16 x position 1..=16 of the first non-digit (16 = none) x its class (three byte ranges) x every value of all 16 bytes; result == (decimal value of the first min(need, p) digits, min(need, p))",
       stubs=["models: 16 x86 intrinsics lane-wise after the Intel pseudo-code (smt/mir2smt.py SIMD table; same semantics as harness/common/intrinsics.rs, which the self-test compares with the CPU)",
              "assumption: the first byte is a digit (parse_number_fraction is entered on a digit)"],
-      args=["simd_check.py", "--jobs", "6", "--timeout-ms", "60000"], cost=10, timeout=600),
+      args=["simd_check.py", "--jobs", "3", "--timeout-ms", "60000"], cost=10, timeout=600),
     H("s_parse_number_shapes", "smt", ["C07", "C02", "C08"], ["sonic_number::parse_number", "parse_number_fraction", "parse_exponent", "arch::fallback::simd_str2int (scalar 16-digit reader)", "POW10_UINT"],
       "1764 literal shapes: sign x integer part (0, or 1/2/3/16..21 digits) x 0/1/2/3/15..19 fraction digits x {no exponent, e dd, E-d, e+ddd} x {end of input, more input}, plus 324 malformed ones (dot or exponent marker without a digit) that must be rejected; every value of every digit",
       stubs=["opaque: parse_float - its arguments are what is asserted (what it returns for them is decided by the s_float_* runs)",
              "what follows the literal is one fixed 25-byte tail (the scanner only looks at its length)"],
-      args=["number_check.py", "--jobs", "8", "--timeout-ms", "60000", "--shapes", "quick"], cost=130, timeout=850),
+      args=["number_check.py", "--jobs", "5", "--timeout-ms", "60000", "--shapes", "quick"], cost=130, timeout=850),
     H("s_parse_number_shapes_native", "smt", ["C07", "C17"], ["sonic_number::parse_number", "parse_number_fraction", "parse_exponent", "arch::x86_64::simd_str2int (the SSE 16-digit reader of target-cpu=native builds, with the intrinsic models)", "POW10_UINT"],
       "the 1764 literal shapes of s_parse_number_shapes on the MIR compiled with the x86 target features (avx2, pclmulqdq, sse4.1, ssse3): same assertions, so the scanner's result does not depend on the backend; every value of every digit",
       stubs=["opaque: parse_float - its arguments are what is asserted", "models: x86 intrinsics lane-wise (smt/mir2smt.py SIMD table)",
              "what follows the literal is one fixed 25-byte tail (the scanner only looks at its length)"],
-      args=["number_check.py", "--native", "--jobs", "8", "--timeout-ms", "60000", "--shapes", "quick"], cost=130, timeout=850),
+      args=["number_check.py", "--native", "--jobs", "5", "--timeout-ms", "60000", "--shapes", "quick"], cost=130, timeout=850),
     H("s_parse_number_shapes_all", "smt", ["C07", "C02", "C08", "C01"], ["sonic_number::parse_number", "parse_number_fraction", "parse_exponent", "arch::fallback::simd_str2int (scalar 16-digit reader)", "POW10_UINT"],
       "every shape with sign x integer part (0, or 1..=22 digits) x 0..=22 fraction digits x {no exponent, e/E x sign/no sign x 1..=3 digits} x {end of input, more input}, plus the malformed ones (dot or exponent marker without a digit); every value of every digit",
       stubs=["opaque: parse_float - its arguments are what is asserted (what it returns for them is decided by the s_float_* runs)",
              "what follows the literal is one fixed 25-byte tail (the scanner only looks at its length)"],
-      args=["number_check.py", "--jobs", "14", "--timeout-ms", "60000", "--shapes", "all"], tier=T, cost=1500, timeout=7200),
+      args=["number_check.py", "--jobs", "14", "--timeout-ms", "60000", "--shapes", "all"], tier=T, exp_gb=24, cost=1500, timeout=7200),
     H("s_float_fast_bounds_2solvers", "smt", ["C02", "C07", "C08"], SMT_FUNCS,
       "as s_float_fast_bounds, every rounding query answered by both z3 and cvc5 and compared",
-      stubs=SMT_CUTS, args=["float_check.py", "--exps=" + _b, "--lemire=-307..345", "--jobs", "14", "--timeout-ms", "60000", "--both"], tier=T, cost=600, timeout=5400),
+      stubs=SMT_CUTS, args=["float_check.py", "--exps=" + _b, "--lemire=-307..345", "--jobs", "14", "--timeout-ms", "60000", "--both"], tier=T, exp_gb=24, cost=600, timeout=5400),
 )
 
 # ================= sonic-simd (selected backend) and the external crate ===========================
